@@ -23,7 +23,11 @@ def _extract(fname):
     from vf import loader, astbv
     with open(os.path.join(loader.REPO, 'pytoniq_core', 'crypto', 'crc.py')) as f:
         src = f.read()
-    return astbv.extract_crc_function(src, fname)
+    try:
+        return astbv.extract_crc_function(src, fname)
+    except astbv.NotInFragment as e:
+        from vf.sym import Unsupported
+        raise Unsupported(f'{fname} left the AST fragment the VC generator supports: {e}')
 
 
 def _cfg(fname):
